@@ -23,6 +23,8 @@ CLAIMED['C19'] = ("Bounded symbolic model checking of updater version selection,
          "Trusted: go/ssa, symgo, z3; semver parsing stub for numeric versions, os stubs. Real semver ordering, file-name round trip and downloads are outside the claim.")
 CLAIMED['C11'] = ("Bounded symbolic model checking of the query tokenizer, parser and printer: tokenizer totality on every byte string up to 4/6 bytes with exact UTF-8 semantics, token preservation for every value/key up to 3/4 bytes, print->parse->print plus equal matching on a symbolic accessor for single conditions and nested groups, acceptance of documented queries and parser totality over bounded token sequences.",
          "Trusted: go/ssa, symgo, z3; hand model of the single regexp use; Sprintf model. Float/regex operand semantics and longer strings are outside the claim. One known finding (reserved-word keys).")
+CLAIMED['C17'] = ("Bounded symbolic model checking of the atomic-replace primitives at mechanism level: every os/file call is a recording stub that fails by a symbolic bit, so every fault schedule is explored; an automaton over the recorded call trace checks that the destination is only ever named by the publishing rename, that the renamed file is the primitive's own temp file in an admissible directory, that write* -> fsync -> close precede the rename, that success is reported iff published and that temp files are renamed or removed. Counterexamples are confirmed on real system calls (strace).",
+         "Trusted: go/ssa, symgo, z3, os stubs, and the POSIX rename/fsync assumption that turns the call-order automaton into old-or-new atomicity; the real file system, crashes and concurrent readers are outside the claim.")
 NA = {}
 def check(pid):
     text, note = CLAIMED[pid]
